@@ -1,5 +1,15 @@
-"""Kani runner: builds /repo's current working tree with the cfg(kani) hooks, runs harnesses in
-parallel (one `cargo kani --harness X --exact` process each), parses CBMC's per-check results."""
+"""Kani runner.
+
+Every run works on a SNAPSHOT taken at its start: /repo's current working tree (without target/ and
+.git) and /verif/kani are copied into the run's scratch directory, and the cfg(kani) hooks in the
+crate mount the proof modules from $VERIF_KANI_DIR (the copy).  So a run always verifies the tree as
+it was when the check started, and edits made meanwhile cannot disturb it.
+
+Harnesses are split into groups; each group is ONE `cargo kani --harness a --harness b ...`
+invocation on its own copy of a pre-built target directory (kani-compiler only generates code for the
+selected harnesses, so a group build takes seconds), groups run in parallel.  CBMC's per-check
+results are parsed per harness.
+"""
 import concurrent.futures as cf
 import os
 import re
@@ -7,7 +17,8 @@ import shutil
 import subprocess
 import time
 
-REPO = os.environ.get("VERIF_REPO", "/repo")
+REAL_REPO = os.environ.get("VERIF_REPO", "/repo")
+REPO = REAL_REPO          # replaced by the snapshot path in snapshot()
 
 FEATURE_SETS = {
     # name -> cargo feature flags
@@ -33,21 +44,36 @@ class BuildError(Exception):
     pass
 
 
+def snapshot(scratch, kani_src):
+    """Copy the current working tree of the repository and the proof sources into `scratch`."""
+    global REPO
+    dst = os.path.join(scratch, "repo")
+    subprocess.run(["rsync", "-a", "--exclude", "/target", "--exclude", "/.git", "--exclude", "/derive/target",
+                    REAL_REPO.rstrip("/") + "/", dst + "/"], check=True)
+    kdst = os.path.join(scratch, "kani")
+    shutil.copytree(kani_src, kdst)
+    REPO = dst
+    ENV["VERIF_KANI_DIR"] = kdst
+    ENV["VERIF_GEN_DIR"] = scratch
+    gen = os.path.join(scratch, "gen.rs")
+    if not os.path.exists(gen):
+        open(gen, "w").write("// no generated harnesses\n")
+    return dst, kdst
+
+
 def _base_cmd(target_dir, fs):
     return ["cargo", "kani", "--target-dir", target_dir] + KANI_FLAGS + FEATURE_SETS[fs]
 
 
 def build(target_dir, fs, log_path, extra_env=None):
-    """Codegen every harness once. Raises BuildError with the compiler output on failure."""
+    """Base build: dependencies + type-check of the whole crate with every proof module, code
+    generation only for the canary.  Raises BuildError with the compiler output on failure."""
     env = dict(ENV)
     if extra_env:
         env.update(extra_env)
-    gen = os.path.join(env["VERIF_GEN_DIR"], "gen.rs")
-    if not os.path.exists(gen):
-        open(gen, "w").write("// no generated harnesses\n")
     t0 = time.time()
-    p = subprocess.run(_base_cmd(target_dir, fs) + ["--only-codegen"], cwd=REPO, env=env,
-                       stdout=subprocess.PIPE, stderr=subprocess.STDOUT, text=True)
+    p = subprocess.run(_base_cmd(target_dir, fs) + ["--only-codegen", "--exact", "--harness", "verif::canary_must_fail"],
+                       cwd=REPO, env=env, stdout=subprocess.PIPE, stderr=subprocess.STDOUT, text=True)
     with open(log_path, "w") as f:
         f.write(p.stdout)
     if p.returncode != 0:
@@ -95,6 +121,7 @@ def parse_output(out):
 
 
 def run_harness(target_dir, fs, harness, timeout, extra_args=None, extra_env=None, cbmc_extra=None):
+    """One harness, one invocation (used for counterexample extraction)."""
     env = dict(ENV)
     if extra_env:
         env.update(extra_env)
@@ -112,8 +139,7 @@ def run_harness(target_dir, fs, harness, timeout, extra_args=None, extra_env=Non
             out = out.decode("utf-8", "replace")
         rc = -9
         timed_out = True
-        # kill stray cbmc of that session
-        subprocess.run(["pkill", "-9", "-f", "--", harness.split("::")[-1]], stdout=subprocess.DEVNULL, stderr=subprocess.DEVNULL)
+        subprocess.run(["pkill", "-9", "-f", "--", target_dir], stdout=subprocess.DEVNULL, stderr=subprocess.DEVNULL)
     res = parse_output(out)
     res.update({"harness": harness, "fs": fs, "rc": rc, "wall": time.time() - t0, "timed_out": timed_out, "raw": out})
     if "Failed to match the following harness" in out or "no harnesses matched" in out.lower():
@@ -125,14 +151,88 @@ def run_harness(target_dir, fs, harness, timeout, extra_args=None, extra_env=Non
     return res
 
 
-def run_many(target_dir, jobs, nproc=16):
-    """jobs: list of dict(fs, harness, timeout, extra_args). Returns list of results (same order)."""
+SECTION_RE = re.compile(r"^Checking harness (\S+?)\.\.\.\s*$", re.M)
+
+
+def run_group(base_dir, gdir, fs, jobs):
+    """jobs: list of dict(harness, timeout). One cargo-kani invocation; returns {harness: result}."""
+    if os.path.isdir(gdir):
+        shutil.rmtree(gdir, ignore_errors=True)
+    subprocess.run(["cp", "-a", base_dir, gdir], check=True)
+    env = dict(ENV)
+    per = max(j["timeout"] for j in jobs)
+    cmd = _base_cmd(gdir, fs) + ["--exact", "--harness-timeout", "%ds" % per]
+    for j in jobs:
+        cmd += ["--harness", j["harness"]]
+    cmd += CBMC_ARGS
+    total = sum(j["timeout"] for j in jobs) + 300
+    t0 = time.time()
+    timed_out = False
+    try:
+        p = subprocess.run(cmd, cwd=REPO, env=env, stdout=subprocess.PIPE, stderr=subprocess.STDOUT,
+                           text=True, timeout=total, start_new_session=True)
+        out = p.stdout
+    except subprocess.TimeoutExpired as e:
+        out = (e.stdout or b"")
+        if isinstance(out, bytes):
+            out = out.decode("utf-8", "replace")
+        timed_out = True
+        subprocess.run(["pkill", "-9", "-f", "--", gdir], stdout=subprocess.DEVNULL, stderr=subprocess.DEVNULL)
+    wall = time.time() - t0
+    # split per harness
+    marks = [(m.start(), m.group(1)) for m in SECTION_RE.finditer(out)]
+    res = {}
+    head = out[:marks[0][0]] if marks else out
+    for i, (pos, name) in enumerate(marks):
+        end = marks[i + 1][0] if i + 1 < len(marks) else len(out)
+        sec = out[pos:end]
+        r = parse_output(sec)
+        r.update({"harness": name, "fs": fs, "raw": sec, "timed_out": False, "wall": r["verification_time"] or 0.0})
+        if r["status"] == "UNKNOWN":
+            if re.search(r"timed out|timeout", sec, re.I):
+                r["status"] = "TIMEOUT"
+            else:
+                r["status"] = "TIMEOUT" if (timed_out and i + 1 == len(marks)) else "ERROR"
+        res[name] = r
+    for j in jobs:
+        if j["harness"] not in res:
+            st = "MISSING" if ("Failed to match the following harness" in out or "no harnesses matched" in out.lower()) else ("TIMEOUT" if timed_out else "ERROR")
+            res[j["harness"]] = {"harness": j["harness"], "fs": fs, "status": st, "checks": [], "verification_time": None,
+                                 "raw": head[-6000:] + "\n...\n" + out[-6000:], "timed_out": timed_out, "wall": 0.0}
+    shutil.rmtree(gdir, ignore_errors=True)
+    return res, wall
+
+
+def run_many(base_dirs, jobs, nproc=16, scratch=None):
+    """jobs: list of dict(fs, harness, timeout, weight). base_dirs: fs -> built target dir.
+    Returns list of results (same order)."""
+    by_fs = {}
+    for i, j in enumerate(jobs):
+        by_fs.setdefault(j["fs"], []).append((i, j))
+    # number of groups per fs proportional to its weight
+    tot_w = sum(j.get("weight", 10) for j in jobs) or 1
+    groups = []
+    for fs, items in by_fs.items():
+        w = sum(j.get("weight", 10) for _, j in items)
+        ng = max(1, min(len(items), int(round(nproc * w / tot_w)) or 1))
+        bins = [[] for _ in range(ng)]
+        load = [0] * ng
+        for i, j in sorted(items, key=lambda x: -x[1].get("weight", 10)):
+            k = load.index(min(load))
+            bins[k].append((i, j))
+            load[k] += j.get("weight", 10)
+        for b in bins:
+            if b:
+                groups.append((fs, b))
     results = [None] * len(jobs)
     with cf.ThreadPoolExecutor(max_workers=nproc) as ex:
         futs = {}
-        for i, j in enumerate(jobs):
-            futs[ex.submit(run_harness, j["target_dir"] if "target_dir" in j else target_dir, j["fs"], j["harness"],
-                           j.get("timeout", 300), j.get("extra_args"), j.get("extra_env"), j.get("cbmc_extra"))] = i
+        for gi, (fs, b) in enumerate(groups):
+            gdir = os.path.join(scratch, "g%d-%s" % (gi, fs))
+            futs[ex.submit(run_group, base_dirs[fs], gdir, fs, [j for _, j in b])] = (fs, b)
         for f in cf.as_completed(futs):
-            results[futs[f]] = f.result()
+            fs, b = futs[f]
+            res, wall = f.result()
+            for i, j in b:
+                results[i] = res[j["harness"]]
     return results
